@@ -28,10 +28,14 @@ type c18Opts struct {
 	Margin int  `json:"margin"`
 	Color  int  `json:"color"`
 	Send   bool `json:"send"`
+	// :time-format / :time-wrap keywords of the call ("" = not given): they apply to this call
+	// only and must not leak into *bag-time-format* / *bag-time-wrap*
+	TimeFormat string `json:"time_format,omitempty"`
+	TimeWrap   string `json:"time_wrap,omitempty"`
 }
 
 func (o c18Opts) w() c18WriteOpts {
-	return c18WriteOpts{pretty: o.Pretty, depth: o.Depth, json: o.JSON, margin: o.Margin, color: o.Color, viaSend: o.Send}
+	return c18WriteOpts{pretty: o.Pretty, depth: o.Depth, json: o.JSON, margin: o.Margin, color: o.Color, viaSend: o.Send, timeFormat: o.TimeFormat, timeWrap: o.TimeWrap}
 }
 
 type c18Case struct {
@@ -49,8 +53,16 @@ type c18Case struct {
 	Channel bool     `json:"channel,omitempty"`
 	Strict  bool     `json:"strict,omitempty"`
 	Form    int      `json:"form,omitempty"` // 0 string 1 octets 2 stream 3 file
+	// config family: the history of settings of *bag-time-format* / *bag-time-wrap* before the parse
+	History []c18CfgStep `json:"history,omitempty"`
 	Sweep  bool      `json:"sweep"`
 	Cell   string    `json:"cell,omitempty"`
+}
+
+type c18CfgStep struct {
+	Var    string `json:"var"`   // format | wrap
+	Value  string `json:"value"` // "" = nil
+	Symbol bool   `json:"symbol,omitempty"`
 }
 
 // a located disagreement
@@ -124,6 +136,8 @@ func parseJV(ts []string) (*jv, []string, bool) {
 		return jFlo(f), rest, err == nil
 	case w[0] == 's':
 		return jStr(lib.Unhex(w[1:])), rest, true
+	case w[0] == 'm':
+		return jTime(lib.Unhex(w[1:])), rest, true
 	}
 	return nil, nil, false
 }
